@@ -195,7 +195,22 @@ func VerifC05_LinkSymmetryStep() {
 		}
 	}
 	env.checkLinks(sp, "C05 after build")
+	// thorough: a history of two operations (the second from whatever the first
+	// left behind: emptied link buckets, deleted entities), quick: one step
+	steps := 1
+	if verifrt.Tier() == 1 {
+		steps = 2
+	}
+	for step := 0; step < steps; step++ {
+		next, changed := verifC05One(env, sp)
+		if !changed {
+			return
+		}
+		sp = next
+	}
+}
 
+func verifC05One(env *vEnv, sp *vLinkSpec) (*vLinkSpec, bool) {
 	next := *sp
 	e := verifrt.Choose("op.emp", 2)
 	op := verifrt.Choose("op", 7)
@@ -281,9 +296,10 @@ func VerifC05_LinkSymmetryStep() {
 	verifrt.Assert((err == nil) == accept, "C05 link operation accepted iff both entities exist (linking to a missing entity fails)")
 	if err != nil {
 		env.checkLinks(sp, "C05 after a rejected operation (unchanged)")
-		return
+		return sp, false
 	}
 	env.checkLinks(&next, "C05 after the operation")
+	return &next, true
 }
 
 // ---- reference-counted links ----
